@@ -1,6 +1,9 @@
 import CotengraVerif.Lemmas.PathLemmas
 import CotengraVerif.Lemmas.ProcessorLemmas
 import CotengraVerif.Lemmas.PartitionLemmas
+import CotengraVerif.Lemmas.BestSoFarLemmas
+import CotengraVerif.Lemmas.CountLemmas
+import CotengraVerif.Lemmas.SsaToLinearLemmas
 
 /-!
 # C05 — every pathfinder returns a complete, well-formed contraction of its network
@@ -19,9 +22,23 @@ import CotengraVerif.Lemmas.PartitionLemmas
   (core.py:3968-4077, 4100-4109) on the set of childless nodes, partitioner = oracle; the three
   short-circuits of `kahypar_subgraph_find_membership` (path_kahypar.py:69-98).
 
+* `Model/ContractNodes.lean` — `contract_nodes` for three or more nodes with the inner path finder
+  as the oracle (`contractNodes`, core.py:1343-1399: `find_path` on the legs of the nodes, replay of
+  the returned linear path with `contract_nodes` as the merge, `(parent,) = temp_nodes`),
+  `from_path` with steps of any arity built on it (`fromLinearK`), `ssa_to_linear`
+  (path_basic.py:821-843: `bisect_left`, `con.sort()`, pops from the back, `IndexError` kept),
+  `RandomOptimizer.__call__` (path_random.py:25-35) with the PRNG draws as the oracle.
+* `Model/BestSoFar.lean` — what `RandomGreedyOptimizer` keeps between calls
+  (`best_ssa_path / best_flops`, path_basic.py:1457-1458, 1519-1523) and what a preset name is bound to
+  (a function building its optimizer per call / one shared instance); `Props/C05Facts.lean` holds the
+  closed obligations over the table regenerated from the live preset registry.
+
 **Not modelled**: the scores and numeric choices of every optimizer, native kahypar, the
-`children`-dict mechanics inside `contract_nodes` that keep `tree.childless` in step (the real
-trees are checked by `checkTree` instead), `edge_path_to_ssa`.
+`children`-dict mechanics inside `contract_nodes_pair` that keep `tree.childless` in step (the
+childless set after every iteration of `build_divide` is compared with `divideStep`, the real trees
+are checked by `checkTree`), the nested case of `get_incomplete_nodes` (childless nodes inside
+childless nodes; the flat case after a partial `from_path` is `fromLinearK … false`),
+`edge_path_to_ssa`, k-ary steps of SSA paths (`fromLinearK` is the linear discipline).
 -/
 namespace Cotengra.C05
 open Cotengra Cotengra.Path
@@ -364,6 +381,193 @@ theorem fromSSA_complete (shape : List BT → BT) (hs : ValidShape shape) (N : N
       | [t], _, _, hperm => exact ⟨t, rfl, by simpa [leavesOf] using hperm⟩
       | _ :: _ :: _, _, hl, _ => simp at hl
 
+/-! ## `contract_nodes` with three or more nodes: the sub-optimizer is an inner path finder
+
+`ValidShape` above is an assumption on an oracle. For the code as it stands the oracle is
+`find_path(legs of the nodes, optimize=…)` followed by a replay of the returned linear path with
+`contract_nodes` itself as the merge (core.py:1364-1399). So the assumption reduces to the property
+itself, one level down: the inner finder returns a valid complete pairwise path of the `k` nodes. -/
+
+theorem leavesOf_reverse (l : List BT) : (leavesOf l.reverse).Perm (leavesOf l) := by
+  unfold leavesOf
+  exact ((List.reverse_perm l).map BT.leaves).flatten
+
+/-- one or two nodes never reach the inner finder -/
+theorem contractNodes_small (inner : Nat → List BT → Path) (fuel depth : Nat) (l : List BT)
+    (hne : l ≠ []) (h2 : l.length ≤ 2) :
+    ∃ m, contractNodes inner fuel depth l = some m ∧ m.leaves.Perm (leavesOf l) := by
+  match l, hne, h2 with
+  | [x], _, _ =>
+    refine ⟨x, by unfold contractNodes; rfl, by simp [leavesOf]⟩
+  | [x, y], _, _ =>
+    refine ⟨pairBT x y, by unfold contractNodes; rfl, ?_⟩
+    simpa [leavesOf] using pairBT_leaves x y
+  | _ :: _ :: _ :: _, _, h => simp at h
+
+theorem stepLinearM_spec (merge : List BT → Option BT) (B : Nat)
+    (hm : ∀ l, l ≠ [] → l.length ≤ B → ∃ m, merge l = some m ∧ m.leaves.Perm (leavesOf l))
+    (items : List BT) (p : Step) (hp : p.length ≤ B) (hok : stepOK items.length p = true) :
+    ∃ items', stepLinearM merge items p = some items' ∧
+      items'.length = items.length - p.length + 1 ∧ (leavesOf items').Perm (leavesOf items) := by
+  obtain ⟨hne, hnd, hb⟩ := (stepOK_iff _ _).1 hok
+  have hlen := splitAt_picked_length items p 0 hnd
+    (fun i hi => ⟨Nat.zero_le _, by simpa using hb i hi⟩)
+  have hrest := splitAt_rest_length items p hnd hb
+  have hpick : (splitAt p items 0).1.reverse ≠ [] := by
+    intro e
+    have := congrArg List.length e
+    simp only [List.length_reverse, List.length_nil] at this
+    rw [hlen] at this
+    exact hne (List.length_eq_zero_iff.1 this)
+  obtain ⟨m, hm1, hm2⟩ := hm (splitAt p items 0).1.reverse hpick
+    (by rw [List.length_reverse, hlen]; exact hp)
+  refine ⟨(splitAt p items 0).2 ++ [m], ?_, ?_, ?_⟩
+  · unfold stepLinearM
+    rw [if_pos hok]
+    simp only [hm1]
+  · rw [List.length_append, hrest]; rfl
+  · have h2 := ((splitAt_perm p items 0).map BT.leaves).flatten
+    rw [List.map_append, List.flatten_append] at h2
+    have h3 := hm2.trans (leavesOf_reverse _)
+    unfold leavesOf at h3 ⊢
+    rw [List.map_append, List.flatten_append]
+    simp only [List.map_cons, List.map_nil, List.flatten_cons, List.flatten_nil, List.append_nil]
+    exact (List.perm_append_comm.trans (List.Perm.append_right _ h3)).trans h2
+
+theorem runLinearM_spec (merge : List BT → Option BT) (B : Nat)
+    (hm : ∀ l, l ≠ [] → l.length ≤ B → ∃ m, merge l = some m ∧ m.leaves.Perm (leavesOf l))
+    (path : Path) : (∀ st ∈ path, st.length ≤ B) → ∀ (items : List BT) (k : Nat),
+      countRun items.length path = some k →
+      ∃ items', runLinearM merge items path = some items' ∧ items'.length = k ∧
+        (leavesOf items').Perm (leavesOf items) := by
+  induction path with
+  | nil =>
+    intro _ items k h
+    simp only [countRun, Option.some.injEq] at h
+    exact ⟨items, rfl, h, List.Perm.refl _⟩
+  | cons p rest ih =>
+    intro hpw items k h
+    simp only [countRun] at h
+    by_cases hok : stepOK items.length p = true
+    · rw [if_pos hok] at h
+      obtain ⟨its, h1, h2, h3⟩ := stepLinearM_spec merge B hm items p (hpw p List.mem_cons_self) hok
+      rw [← h2] at h
+      obtain ⟨its', h4, h5, h6⟩ := ih (fun st hst => hpw st (List.mem_cons_of_mem _ hst)) its k h
+      refine ⟨its', ?_, h5, h6.trans h3⟩
+      simp only [runLinearM, h1, h4]
+    · rw [if_neg hok] at h; cases h
+
+/-- **contractNodes_complete.** `contract_nodes` on `k ≥ 3` nodes: whenever the inner finder
+    (whatever `optimize` is: a preset, an optimizer object, an explicit path) returns a valid
+    complete pairwise linear path of the `k` nodes, the result is one node holding exactly the
+    inputs of the `k` nodes (so the unpacking `(parent,) = temp_nodes` succeeds and
+    `parent == grandparent`). -/
+theorem contractNodes_complete (inner : Nat → List BT → Path) (fuel depth : Nat) (xs : List BT)
+    (h3 : 3 ≤ xs.length) (hv : checkLinear xs.length (inner depth xs) = true)
+    (hpw : ∀ st ∈ inner depth xs, st.length ≤ 2) :
+    ∃ t, contractNodes inner (fuel + 1) depth xs = some t ∧ t.leaves.Perm (leavesOf xs) := by
+  have hc := (checkLinear_iff_count _ _).1 hv
+  obtain ⟨its, h1, h2, h3'⟩ := runLinearM_spec (contractNodes inner fuel (depth + 1)) 2
+    (contractNodes_small inner fuel (depth + 1)) (inner depth xs) hpw xs 1 hc
+  match its, h2 with
+  | [t], _ =>
+    refine ⟨t, ?_, by simpa [leavesOf] using h3'⟩
+    match xs, h3 with
+    | a :: b :: c :: rest, _ =>
+      unfold contractNodes
+      simp only [h1]
+
+/-- **validShape_of_inner.** The sub-optimizer assumption of `fromPath_complete` /
+    `fromSSA_complete`, discharged for the code as it stands: if the inner finder returns valid
+    complete pairwise paths, the arrangement `contract_nodes` builds from them is a `ValidShape`. -/
+theorem validShape_of_inner (inner : Nat → List BT → Path)
+    (hv : ∀ xs, 3 ≤ xs.length →
+      checkLinear xs.length (inner 0 xs) = true ∧ ∀ st ∈ inner 0 xs, st.length ≤ 2) :
+    ValidShape (shapeOfInner inner) := by
+  intro xs h3
+  obtain ⟨t, h1, h2⟩ := contractNodes_complete inner 0 0 xs h3 (hv xs h3).1 (hv xs h3).2
+  unfold shapeOfInner
+  rw [h1]
+  exact h2
+
+/-- every top-level `contract_nodes` call succeeds and keeps the inputs -/
+theorem contractNodes_total (inner : Nat → List BT → Path)
+    (hv : ∀ xs, 3 ≤ xs.length →
+      checkLinear xs.length (inner 0 xs) = true ∧ ∀ st ∈ inner 0 xs, st.length ≤ 2)
+    (l : List BT) (hne : l ≠ []) :
+    ∃ m, contractNodes inner 1 0 l = some m ∧ m.leaves.Perm (leavesOf l) := by
+  by_cases h : l.length ≤ 2
+  · exact contractNodes_small inner 1 0 l hne h
+  · exact contractNodes_complete inner 0 0 l (by omega) (hv l (by omega)).1 (hv l (by omega)).2
+
+def maxLen (path : Path) : Nat := path.foldr (fun st m => max st.length m) 0
+
+theorem le_maxLen (path : Path) : ∀ st ∈ path, st.length ≤ maxLen path := by
+  induction path with
+  | nil => intro st h; cases h
+  | cons p rest ih =>
+    intro st h
+    simp only [maxLen, List.foldr_cons]
+    rcases List.mem_cons.1 h with e | e
+    · subst e; exact Nat.le_max_left _ _
+    · exact Nat.le_trans (ih st e) (Nat.le_max_right _ _)
+
+/-- **fromPath_kary_complete.** `from_path` on a linear path with steps of any arity ≥ 1, complete
+    or not, with the finder `optimize` used for every step of three or more nodes and for the
+    final completion: one tree over exactly the inputs, as soon as that finder returns valid
+    complete pairwise paths — the property for `N` inputs follows from the property for the at
+    most `N` nodes of each k-ary step. -/
+theorem fromPath_kary_complete (inner : Nat → List BT → Path)
+    (hv : ∀ xs, 3 ≤ xs.length →
+      checkLinear xs.length (inner 0 xs) = true ∧ ∀ st ∈ inner 0 xs, st.length ≤ 2)
+    (N : Nat) (hN : 1 ≤ N) (path : Path) (hp : checkLinearPartial N path = true) :
+    ∃ t, fromLinearK inner N path true = some [t] ∧ t.leaves.Perm (List.range N) := by
+  have hc := (checkLinearPartial_iff_count N path).1 hp
+  cases hk : countRun N path with
+  | none => rw [hk] at hc; cases hc
+  | some k =>
+    have hlen : (leafBTs N).length = N := by simp [leafBTs]
+    obtain ⟨its, h1, h2, h3⟩ := runLinearM_spec (contractNodes inner 1 0) (maxLen path)
+      (fun l hne _ => contractNodes_total inner hv l hne) path (le_maxLen path) (leafBTs N) k
+      (by rw [hlen]; exact hk)
+    rw [leafBTs_leaves] at h3
+    have hne : its ≠ [] := by
+      intro e
+      rw [e] at h3
+      have := h3.length_eq
+      simp [leavesOf] at this
+      omega
+    unfold fromLinearK
+    rw [h1]
+    simp only
+    by_cases hl : its.length > 1
+    · simp only [hl, decide_true, Bool.and_self, if_true]
+      obtain ⟨m, hm1, hm2⟩ := contractNodes_total inner hv its hne
+      exact ⟨m, by rw [hm1]; rfl, hm2.trans h3⟩
+    · simp only [hl, decide_false, Bool.false_and, Bool.false_eq_true, if_false]
+      match its, hne, hl with
+      | [t], _, _ => exact ⟨t, rfl, by simpa [leavesOf] using h3⟩
+      | _ :: _ :: _, _, hl => simp at hl
+
+/-- an inner finder that drops a node is what the hypothesis excludes: `(parent,) = temp_nodes`
+    fails (python: ValueError) -/
+example : contractNodes (fun _ _ => [[0, 1]]) 1 0 [.leaf 0, .leaf 1, .leaf 2] = none := by decide
+example : contractNodes (fun _ _ => [[0, 2], [0, 1]]) 1 0 [.leaf 0, .leaf 1, .leaf 2] =
+    some (.node (.node (.leaf 0) (.leaf 2)) (.leaf 1)) := rfl
+
+/-! ## `RandomOptimizer` -/
+
+/-- **randomOptimizer_path_valid.** `RandomOptimizer.__call__` (path_random.py:25-35): whatever
+    the PRNG draws — for `Nrem = N-1 … 1` a position `i` in `0..Nrem` and, redrawn until it
+    differs, a position `j` in `0..Nrem` — the path is a valid complete linear path of the `N`
+    inputs. -/
+theorem randomOptimizer_path_valid (N : Nat) (draws : List (Nat × Nat))
+    (h : drawsOK N draws = true) : checkLinear N (randomPath draws) = true :=
+  (checkLinear_iff_count N _).2 (randomPath_count draws N h)
+
+example : drawsOK 4 [(3, 0), (2, 1), (0, 1)] = true := by decide
+example : drawsOK 4 [(3, 0), (2, 3), (0, 1)] = false := by decide   -- `randint(0, Nrem + 1)`
+
 /-! ## the processor -/
 
 open Processor in
@@ -455,6 +659,28 @@ theorem divide_terminates_repaired (cutoff : Nat) (o : Partition.DivideOracle)
     exact ⟨0, rfl⟩
 
 open Partition in
+/-- **divide_terminates.** The full statement for the code as it stands (core.py:270 now starts
+    `childless` empty for a single input): for *every* number of inputs, every partitioner that
+    honours its contract (one label per node of the subgraph it is given — one community, as many
+    communities as nodes, absent or huge labels, anything), every cutoff and every order in which
+    childless nodes are taken, the `while tree.childless` loop ends after at most `N − 1`
+    iterations with no childless node left. (Without the contract the loop need not end: a
+    membership shorter than the subgraph makes `contract_nodes` build a node that is not the
+    childless one, which then stays childless.) -/
+theorem divide_terminates (cutoff : Nat) (o : Partition.DivideOracle)
+    (hfull : ∀ sub, sub.length ≤ (o.part sub).length) (N : Nat) :
+    ∃ k, Partition.divideLoop cutoff o (N - 1) (Partition.initChildlessFixed N) = some k ∧
+      k ≤ N - 1 := by
+  unfold initChildlessFixed
+  by_cases h : N > 1
+  · rw [if_pos h]
+    exact divide_terminates_partial cutoff o hfull N (by omega)
+  · rw [if_neg h]
+    have : N - 1 = 0 := by omega
+    rw [this]
+    exact ⟨0, rfl, Nat.le_refl _⟩
+
+open Partition in
 /-- **agglom_complete_partial.** (full statement: `build_agglom` terminates for every
     partitioner — false for the code as it stands, see `agglom_counterexample`.)
     Whenever the loop ends, at most `groupsize` leaves remain for the final `contract_nodes`; and it
@@ -482,6 +708,16 @@ theorem agglom_fixed_complete (groupsize : Nat) (labels : Nat → List Nat) (n :
   agglomLoopFixed_terminates groupsize labels n n (Nat.le_refl _)
 
 open Partition in
+/-- **agglom_terminates.** The full statement for the code as it stands (core.py:4066-4070 now
+    leaves the loop when a round merges nothing): for every partitioner whatsoever, every
+    `groupsize` and every number of leaves the `while len(leaves) > groupsize` loop ends within
+    `n` rounds; what is left (at most `n` leaves; at most `groupsize` unless a round merged
+    nothing) goes to the final `contract_nodes`. -/
+theorem agglom_terminates (groupsize : Nat) (labels : Nat → List Nat) (n : Nat) :
+    ∃ r, Partition.agglomLoopFixed groupsize labels n n = some r ∧ r ≤ n :=
+  agglom_fixed_complete groupsize labels n
+
+open Partition in
 /-- **kahypar_edge_cases.** The three short-circuits return one label per node. -/
 theorem kahypar_edge_cases (nv parts : Nat) (onodes : List Nat) :
     (Partition.kahyparTooManyParts nv).length = nv ∧
@@ -489,6 +725,170 @@ theorem kahypar_edge_cases (nv parts : Nat) (onodes : List Nat) :
     (1 ≤ parts → (Partition.kahyparRoundRobin nv parts).length = nv) :=
   ⟨by simp [kahyparTooManyParts], kahyparFixOutputs_length nv onodes,
    kahyparRoundRobin_length nv parts⟩
+
+/-! ## presets and the state an optimizer keeps between calls
+
+`RandomGreedyOptimizer.ssa_path` (path_basic.py:1483-1523) keeps the best path seen so far and
+returns *it*; the docstring says the object "should not be re-used on different contractions".
+The presets 'random-greedy' / 'random-greedy-128' are therefore bound to the *function*
+`random_greedy_optimize` (cotengra/__init__.py:263-274), which builds a new optimizer per call.
+`Props/C05Facts.lean` checks, over the table regenerated from the live registry on every run, that
+every preset name is bound either to such a function or to an instance of a class that carries
+nothing from one call to the next. -/
+
+open BestSoFar in
+/-- **preset_fresh_per_call_valid.** A preset bound to a function that constructs its optimizer
+    inside the call answers *every* sequence of queries — any networks in any order, cheaper
+    first, dearer first, more tensors, fewer tensors — with the path the inner finder found for
+    the network it was asked about; so whenever the inner finder returns a valid complete SSA
+    path of the `N_k` inputs of query `k`, answer `k` is one. -/
+theorem preset_fresh_per_call_valid (qs : List (Nat × BestSoFar.Found))
+    (hv : ∀ q ∈ qs, checkSSA q.1 q.2.path = true) (k : Nat) (hk : k < qs.length) :
+    ∃ p, (BestSoFar.answers .freshPerCall (qs.map (·.2)))[k]? = some (some p) ∧
+      p = qs[k].2.path ∧ checkSSA qs[k].1 p = true := by
+  refine ⟨qs[k].2.path, ?_, rfl, hv _ (List.getElem_mem hk)⟩
+  rw [answers_fresh]
+  simp [List.getElem?_map, List.getElem?_eq_getElem hk]
+
+open BestSoFar in
+/-- **preset_shared_instance_counterexample.** One shared `RandomGreedyOptimizer` behind a preset
+    fails the property: after a cheaper 3-tensor network the dearer 4-tensor network is answered
+    with the 3-tensor path (a tensor is left over); after a cheaper 4-tensor network the dearer
+    3-tensor network is answered with a path naming ids that do not exist (`KeyError` in
+    `from_path`, a missing position in the linear path). Both inner answers were valid. -/
+theorem preset_shared_instance_counterexample :
+    let more : List (Nat × BestSoFar.Found) :=
+      [(3, ⟨[[0, 1], [2, 3]], 5⟩), (4, ⟨[[0, 1], [2, 3], [4, 5]], 9⟩)]
+    let fewer : List (Nat × BestSoFar.Found) :=
+      [(4, ⟨[[0, 1], [2, 3], [4, 5]], 5⟩), (3, ⟨[[0, 1], [2, 3]], 9⟩)]
+    (∀ q ∈ more ++ fewer, checkSSA q.1 q.2.path = true) ∧
+    (BestSoFar.answers .sharedInstance (more.map (·.2)))[1]? = some (some [[0, 1], [2, 3]]) ∧
+    checkSSA 4 [[0, 1], [2, 3]] = false ∧ checkSSAPartial 4 [[0, 1], [2, 3]] = true ∧
+    (BestSoFar.answers .sharedInstance (fewer.map (·.2)))[1]? = some (some [[0, 1], [2, 3], [4, 5]]) ∧
+    checkSSAPartial 3 [[0, 1], [2, 3], [4, 5]] = false := by
+  decide
+
+open BestSoFar in
+/-- **shared_instance_same_network_valid.** What a shared instance *is* good for (the documented
+    use): as long as every query is about networks of the same `N` tensors and the inner finder
+    returns valid complete paths, every answer is a valid complete path of `N` tensors. -/
+theorem shared_instance_same_network_valid (N : Nat) (qs : List BestSoFar.Found)
+    (hv : ∀ q ∈ qs, checkSSA N q.path = true) :
+    ∀ a ∈ BestSoFar.answers .sharedInstance qs, ∃ p, a = some p ∧ checkSSA N p = true :=
+  sharedAnswers_same_network N qs init (good_init N) hv
+
+open BestSoFar in
+/-- **shared_instance_decreasing_valid.** … and for sequences of strictly decreasing cost, where
+    each answer is the path found for the query itself (why a single call, or cheaper and cheaper
+    networks, never show the defect). -/
+theorem shared_instance_decreasing_valid (qs : List BestSoFar.Found)
+    (hd : qs.Pairwise (fun a b => b.flops < a.flops)) :
+    BestSoFar.answers .sharedInstance qs = qs.map fun q => some q.path :=
+  sharedAnswers_decreasing qs init (fun _ _ => rfl) hd
+
+/-! ## `ssa_to_linear` and the finders that go through it -/
+
+/-- **ssaToLinear_valid.** `ssa_to_linear(ssa_path, N)` (path_basic.py:821-843) on an SSA path
+    that replays on `N` inputs never raises and returns a linear path that replays on `N`
+    inputs; a complete SSA path gives a complete linear path ("returned linear paths only
+    reference positions that exist at that step", for every finder that converts). -/
+theorem ssaToLinear_valid (N : Nat) (p : Path) (h : checkSSAPartial N p = true) :
+    ∃ q, ssaToLinear N p = some q ∧ checkLinearPartial N q = true ∧
+      (checkSSA N p = true → checkLinear N q = true) := by
+  unfold checkSSAPartial at h
+  cases hr : runSSA (fun _ => ()) (initSSA N fun _ => ()) p with
+  | none => rw [hr] at h; cases h
+  | some s' =>
+    obtain ⟨st', h1, hrel⟩ := s2lRun_rel p (rel_init N) hr
+    refine ⟨st'.out, by unfold ssaToLinear; rw [h1]; rfl, ?_, ?_⟩
+    · rw [checkLinearPartial_iff_count, hrel.count]; rfl
+    · intro hc
+      unfold checkSSA at hc
+      rw [hr] at hc
+      rw [checkLinear_iff_count, hrel.count]
+      obtain ⟨nodes, ssa⟩ := s'
+      match nodes, hc with
+      | [_], _ => rfl
+
+example : ssaToLinear 4 [[0, 3], [2, 4], [1, 5]] = some [[0, 3], [1, 2], [0, 1]] := by decide
+example : ssaToLinear 4 [[3, 0], [4, 2], [5, 1]] = some [[0, 3], [1, 2], [0, 1]] := by decide
+example : ssaToLinear 3 [[0, 1], [2, 3], [4, 5]] = none := by decide     -- a path of 4 inputs: IndexError
+
+/-- `from_path(ssa_path=…)` on a complete SSA path needs no autocompletion -/
+theorem fromSSA_complete_noauto (shape : List BT → BT) (hs : ValidShape shape) (N : Nat)
+    (hN : 1 ≤ N) (path : Path) (hp : checkSSA N path = true) :
+    ∃ t, fromSSA shape N path false = some [t] ∧ t.leaves.Perm (List.range N) := by
+  have hmap := runSSA_map (fun _ : BT => ()) (mergeBT shape) (fun _ => ()) (fun _ => rfl)
+    (initSSA N BT.leaf) path
+  rw [initSSA_BT_unit] at hmap
+  unfold checkSSA at hp
+  rw [hmap] at hp
+  cases hr : runSSA (mergeBT shape) (initSSA N BT.leaf) path with
+  | none => rw [hr] at hp; simp at hp
+  | some s =>
+    rw [hr] at hp
+    have hne0 : (initSSA N BT.leaf).nodes ≠ [] := by
+      unfold initSSA
+      intro e
+      have := congrArg List.length e
+      simp at this; omega
+    obtain ⟨hperm, _⟩ := runSSA_leaves shape hs path hne0 hr
+    rw [initSSA_BT_leaves] at hperm
+    unfold fromSSA
+    rw [hr]
+    obtain ⟨nodes, ssa⟩ := s
+    match nodes, hp, hperm with
+    | [(k, t)], _, hperm =>
+      refine ⟨t, by simp, ?_⟩
+      simpa [leavesOfD, leavesOf, vals] using hperm
+    | [], hp, _ => simp [mapS, mapD] at hp
+    | _ :: _ :: _, hp, _ => simp [mapS, mapD] at hp
+
+/-- **greedy_finder_valid.** `optimize_greedy` / `optimize_optimal` / one trial of
+    `optimize_random_greedy_track_flops` and the objects and hyper-functions built on them
+    (path_basic.py:973-1037, 1040-1175, 1178-1290; path_greedy.py:11-34): a
+    `ContractionProcessor` on `N ≥ 1` inputs, any word of operations (with or without
+    `simplify`, any scores, any PRNG), then `optimize_remaining_by_size`. Whatever was chosen:
+    * `use_ssa=True`: the returned `ssa_path` is a valid complete SSA path;
+    * `use_ssa=False`: `ssa_to_linear(ssa_path, N)` does not raise and is a valid complete linear path;
+    * `search` / `trial_greedy`: `from_path(ssa_path=…)` gives one tree over exactly the inputs,
+      nothing left to autocomplete. -/
+theorem greedy_finder_valid (N : Nat) (hN : 1 ≤ N) (ops : List Processor.Op) (sz : Nat → Nat)
+    (s : Processor.State) (h : Processor.run (Processor.init N) ops = some s)
+    (shape : List BT → BT) (hs : ValidShape shape) :
+    ∃ s', Processor.remaining sz s = some s' ∧ checkSSA N s'.path = true ∧
+      (∃ q, ssaToLinear N s'.path = some q ∧ checkLinear N q = true) ∧
+      (∃ t, fromSSA shape N s'.path false = some [t] ∧ t.leaves.Perm (List.range N)) := by
+  obtain ⟨s', h1, _, h3⟩ := processor_path_valid N hN ops sz s h
+  have hpart : checkSSAPartial N s'.path = true := by
+    unfold checkSSA at h3
+    unfold checkSSAPartial
+    cases hr : runSSA (fun _ => ()) (initSSA N fun _ => ()) s'.path with
+    | none => rw [hr] at h3; cases h3
+    | some _ => rfl
+  obtain ⟨q, hq1, _, hq3⟩ := ssaToLinear_valid N s'.path hpart
+  exact ⟨s', h1, h3, ⟨q, hq1, hq3 h3⟩, fromSSA_complete_noauto shape hs N hN s'.path h3⟩
+
+open BestSoFar in
+/-- **random_greedy_preset_valid.** The 'random-greedy' presets end to end: bound to a function
+    that builds a fresh `RandomGreedyOptimizer` per call (`presets_bound_safely` /
+    `random_greedy_presets_fresh` over the regenerated table), every query `k` of every sequence
+    is answered with `ssa_to_linear` of the path the inner finder found for *that* network — a
+    valid complete linear path of its `N_k` inputs whenever the inner path is a valid SSA path
+    (which `greedy_finder_valid` gives for every trial). -/
+theorem random_greedy_preset_valid (qs : List (Nat × BestSoFar.Found))
+    (hv : ∀ q ∈ qs, checkSSA q.1 q.2.path = true) (k : Nat) (hk : k < qs.length) :
+    ∃ p q, (BestSoFar.answers .freshPerCall (qs.map (·.2)))[k]? = some (some p) ∧
+      ssaToLinear qs[k].1 p = some q ∧ checkLinear qs[k].1 q = true := by
+  obtain ⟨p, h1, h2, h3⟩ := preset_fresh_per_call_valid qs hv k hk
+  have hpart : checkSSAPartial qs[k].1 p = true := by
+    unfold checkSSA at h3
+    unfold checkSSAPartial
+    cases hr : runSSA (fun _ => ()) (initSSA qs[k].1 fun _ => ()) p with
+    | none => rw [hr] at h3; cases h3
+    | some _ => rfl
+  obtain ⟨q, hq1, _, hq3⟩ := ssaToLinear_valid qs[k].1 p hpart
+  exact ⟨p, q, h1, hq1, hq3 h3⟩
 
 /-! ## non-vacuity -/
 
